@@ -24,6 +24,7 @@ type Read struct {
 	// walk
 	WalkSnap      bool   `json:"walk_snap,omitempty"`
 	WalkIgnoreDel bool   `json:"walk_ignore_del,omitempty"`
+	WalkNoTS      uint8  `json:"walk_no_timestamp,omitempty"`
 	Moves         []Move `json:"moves,omitempty"`
 }
 
@@ -179,8 +180,10 @@ func (g *gen) value() []byte {
 		return nil
 	case x < 12:
 		return []byte{}
-	case x < 50:
+	case x < 44:
 		n = 1 + g.r.Intn(8)
+	case x < 50:
+		n = 8 // exactly a timestamp suffix and nothing else (empty user value in the data mapping)
 	case x < 92 || !g.p.BigValues:
 		n = 9 + g.r.Intn(56)
 	default:
@@ -347,6 +350,22 @@ func (g *gen) batchOps() []Op {
 	return ops
 }
 
+// noTS picks the timestamp-stripping mode of an iterator: not switched on,
+// the two value types the engines know, or a type byte they do not strip for.
+func (g *gen) noTS() uint8 {
+	switch x := g.r.Intn(20); {
+	case x < 8:
+		return 0
+	case x < 13:
+		return 22
+	case x < 18:
+		return 21
+	case x < 19:
+		return 23
+	}
+	return uint8(1 + g.r.Intn(255))
+}
+
 func (g *gen) iterSpec(limit bool) IterSpec {
 	var s IterSpec
 	var combo int
@@ -370,6 +389,7 @@ func (g *gen) iterSpec(limit bool) IterSpec {
 	}
 	s.IgnoreDel = bit() == 1
 	s.WithSnap = bit() == 1
+	s.NoTS = g.noTS()
 	if minSet {
 		s.Min = g.bound()
 	}
@@ -421,7 +441,7 @@ func (g *gen) iterSpec(limit bool) IterSpec {
 }
 
 func (g *gen) walk() Read {
-	rd := Read{Kind: "walk", WalkSnap: g.r.Intn(2) == 0, WalkIgnoreDel: g.r.Intn(4) == 0}
+	rd := Read{Kind: "walk", WalkSnap: g.r.Intn(2) == 0, WalkIgnoreDel: g.r.Intn(4) == 0, WalkNoTS: g.noTS()}
 	all := g.md.sorted()
 	pos := -1 // invalid
 	n := 6 + g.r.Intn(12)
